@@ -26,6 +26,8 @@ OpSeq == IdxN(Len(OpNames), LAMBDA k : OpNames[k] \in RunOps)
 \* C05 on the model
 ModelImplementsReduce == S = <<>> \/ \A op \in RunOps : Agrees(op, S) \/ ModelDeviation(op, S)
 ReduceIsSound         == \A op \in RunOps : ReduceSound(op, S)
+ReduceVarIsSound      == \A op \in RunOps \cap {"cov_req", "cov_sym_req", "drift_req", "ranks_req"} :
+                            ReduceVarAgrees(op, S) \/ ModelDeviation(op, S)
 \* Reduce removes nothing from a clean Db and everything from a Db without usable sample
 ReduceExtremes == /\ Feat(S).clean => \A k \in DOMAIN NeedKeys : Keep(S, NeedSet(NeedKeys[k])) = [i \in DOMAIN S |-> i]
                   /\ (\A i \in DOMAIN S : ~SelOn(S[i])) => \A k \in DOMAIN NeedKeys : Keep(S, NeedSet(NeedKeys[k])) = <<>>
@@ -39,6 +41,7 @@ CaseRec ==
     v |-> [i \in DOMAIN S |-> S[i].v],
     feat |-> Feat(S),
     keep |-> [k \in DOMAIN NeedKeys |-> Keep(S, NeedSet(NeedKeys[k]))],
+    keepv |-> [k \in DOMAIN NeedKeys |-> [w \in Vars |-> KeepVar(S, NeedSet(NeedKeys[k]), w)]],
     ops |-> [k \in DOMAIN OpSeq |->
                LET op == OpNames[OpSeq[k]] IN
                [ op |-> op, nk |-> KeyOf(NeedsOf(op)), kind |-> KindOf(op), decl |-> Spec_(op, S),
